@@ -80,6 +80,7 @@ class ConditionCode(enum.IntEnum):
     FILE_SIZE_ERROR = 0b0110
     NAK_LIMIT_REACHED = 0b0111
     INACTIVITY_DETECTED = 0b1000
+    INVALID_FILE_STRUCTURE = 0b1001
     CHECK_LIMIT_REACHED = 0b1010
     UNSUPPORTED_CHECKSUM_TYPE = 0b1011
     # The following two are not actual fault conditions for which fault handler overrides
